@@ -91,7 +91,7 @@ def r1(ctx):
     # built inside the per-group closures costs groups x roots x depth system calls and judges the groups by roots resolved at different moments
     per_group = [c for cp in lib.closures_of(b.path) for c in lib.body(cp).calls(r'GroupConfig::group_filter$')]
     once = b.calls(r'GroupConfig::group_filter$')
-    ctx.check(bool(once) and not per_group, rule, P + '|one-filter-for-all-groups', (per_group[0].where() if per_group else (once[0].where() if once else b.where())),
+    ctx.advise(bool(once) and not per_group, rule, P + '|one-filter-for-all-groups', (per_group[0].where() if per_group else (once[0].where() if once else b.where())),
               'the replication filter of the statistics is built once, outside the per-group closures',
               'config.group_filter() is called inside the closures that fold over the groups: since the roots of --isolate are canonicalised by group_filter() (D-series repair of the root spelling), the '
               'header statistics cost 2 x groups x roots x path-depth readlink() calls (120076 instead of 56 for 3000 groups under two roots 8 levels deep; minutes for a million groups), and every '
